@@ -1,10 +1,12 @@
 CONSTANTS
   HMax = 1
+  SingleKinds = {}
   BothVis = FALSE
   PairVers = {}
   NRandom = 0
   BuildMax = 0
   BuildIds = {}
+  StaticInit = TRUE
 INIT JInit
 NEXT JNext
 CHECK_DEADLOCK FALSE
